@@ -30,7 +30,20 @@ impl Hist {
         if rng.chance(0.35) {
             hp.ratio_weight = 0.5; // ratio-change heavy
         }
-        let ops = gen_history(&mut rng, &cfg, &hp);
+        let mut ops = gen_history(&mut rng, &cfg, &hp);
+        // near-integer mode (power-of-two ratio that can only be nudged by ulps): many calls with
+        // occasional ulp-sized ratio flips, so that read positions land within rounding of integers
+        if cfg.kind.is_async() && cfg.max_rel < 1.0 + 1e-6 && cfg.max_rel > 1.0 && cfg.ratio.log2().fract() == 0.0 && ctx.profile != "tiny" {
+            ops.clear();
+            let n = rng.ui(30, 120);
+            for k in 0..n {
+                if k == 0 || rng.chance(0.08) {
+                    let v = *rng.pick(&[cfg.lo(), cfg.hi(), cfg.ratio, crate::rng::next_up(cfg.ratio), crate::rng::next_down(cfg.ratio)]);
+                    ops.push(Op::SetRatio { v: v.clamp(cfg.lo(), cfg.hi()), ramp: rng.chance(0.3), rel: false });
+                }
+                ops.push(Op::Proc { path: Path::Exact, slack_in: 0, slack_out: 0, mask: None, empty_inactive: false });
+            }
+        }
         let sig_seed = rng.next();
         let desc = J::obj()
             .with("sample", J::s(T::NAME))
